@@ -12,7 +12,7 @@ static uint8_t seed[1 << 12], mut[1 << 12], plain[1 << 12], o1[1 << 13], o2[1 <<
 static rb_out so; static size_t plen, first_content, pad_len; static int seed_kind; static char seed_name[100]; static int seed_has_check; static size_t first_len;
 enum { FMT_XZ, FMT_LZMA, FMT_LZ };
 enum { D_STREAM, D_STREAM_C, D_MT, D_MT_C, D_AUTO, D_AUTO_C, D_ALONE, D_LZIP, D_LZIP_C, D_BLOCKAPI, D_N };
-static const char *DN[] = { "stream", "stream+concat", "mt2", "mt2+concat", "auto", "auto+concat", "alone", "lzip", "lzip+concat", "block-api-v0" };
+static const char *DN[] = { "stream", "stream+concat", "mt2", "mt2+concat", "auto", "auto+concat", "alone", "lzip", "lzip+concat", "block-api" };
 static int dk_concat(int k) { return k == D_STREAM_C || k == D_MT_C || k == D_AUTO_C || k == D_LZIP_C; }
 static int seed_one_block; static size_t nocheck_end;	// bytes [0, nocheck_end) belong to a Stream without integrity check
 static int dk_applies(int k, int fmt) { if (k == D_BLOCKAPI) return fmt == FMT_XZ && seed_one_block; if (fmt == FMT_XZ) return k <= D_AUTO_C; if (fmt == FMT_LZMA) return k == D_ALONE || k == D_AUTO || k == D_AUTO_C; return k == D_LZIP || k == D_LZIP_C || k == D_AUTO || k == D_AUTO_C; }
@@ -20,19 +20,20 @@ typedef struct { lzma_ret r; size_t tin, tout; } res;
 static lzma_stream reused = LZMA_STREAM_INIT; static int use_reused;
 // The Block API as a random-access reader uses it: Stream Header gives the Check, the Block Header is decoded into a version-0 lzma_block
 // whose other members were never initialised (0xA5 filler), then lzma_block_buffer_decode(). Success is reported as LZMA_STREAM_END.
-static res decode_blockapi(const uint8_t *in, size_t n) {
+static res decode_blockapi(const uint8_t *in, size_t n, int v1) {
 	res o = { LZMA_DATA_ERROR, 0, 0 }; if (n < 12 + 8) return o; lzma_stream_flags sf; if (lzma_stream_header_decode(&sf, in) != LZMA_OK) { o.r = LZMA_FORMAT_ERROR; return o; }
-	lzma_filter f[LZMA_FILTERS_MAX + 1]; lzma_block b; memset(&b, 0xA5, sizeof b); b.version = 0; b.check = sf.check; b.filters = f;
+	lzma_filter f[LZMA_FILTERS_MAX + 1]; lzma_block b; memset(&b, 0xA5, sizeof b); b.version = v1 ? 1 : 0; b.check = sf.check; b.filters = f;
 	if (in[12] == 0) return o; b.header_size = lzma_block_header_size_decode(in[12]); if (12 + b.header_size > n) return o;
 	lzma_ret r = lzma_block_header_decode(&b, NULL, in + 12); if (r != LZMA_OK) { o.r = r; return o; }
 	// the reader keeps only the members the Block decoder is documented to read for version 0; everything else stays uninitialised
 	lzma_block c; memset(&c, 0xA5, sizeof c); c.version = 0; c.check = b.check; c.filters = f; c.header_size = b.header_size; c.compressed_size = b.compressed_size; c.uncompressed_size = b.uncompressed_size;
-	size_t ip = 12 + b.header_size, op = 0; r = lzma_block_buffer_decode(&c, NULL, in, &ip, n, o1, &op, sizeof o1);
+	// second reader (mode 1): a version-1 structure used as lzma_block_header_decode() left it -- block.h: "lzma_block_header_decode() always sets [ignore_check] to false"
+	size_t ip = 12 + b.header_size, op = 0; r = lzma_block_buffer_decode(v1 ? &b : &c, NULL, in, &ip, n, o1, &op, sizeof o1);
 	for (int i = 0; i < LZMA_FILTERS_MAX && f[i].id != LZMA_VLI_UNKNOWN; i++) free(f[i].options);
 	o.r = r == LZMA_OK ? LZMA_STREAM_END : r; o.tin = ip; o.tout = op; return o;
 }
 static res decode(int k, const uint8_t *in, size_t n, int mode) {
-	if (k == D_BLOCKAPI) return decode_blockapi(in, n);
+	if (k == D_BLOCKAPI) return decode_blockapi(in, n, mode);
 	lzma_stream local = LZMA_STREAM_INIT; lzma_stream *s = &local; uint32_t fl = dk_concat(k) ? LZMA_CONCATENATED : 0; lzma_ret r;
 	if (use_reused && (k == D_STREAM || k == D_MT)) {	// the handle was used before with LZMA_IGNORE_CHECK on a valid file: flags must not stick
 		s = &reused; lzma_mt m0 = { .flags = LZMA_IGNORE_CHECK | LZMA_CONCATENATED, .threads = 2, .memlimit_threading = UINT64_MAX, .memlimit_stop = UINT64_MAX };
@@ -57,7 +58,7 @@ static void judge(const char *fault, size_t at, int tag, size_t mlen, int is_tru
 			if (a.r != LZMA_STREAM_END) { n_detected++; continue; }
 			if (k == D_BLOCKAPI) {	// only the Block was read: success is fine if the data is right (damage elsewhere in the file is not seen through this API)
 				if (a.tout == first_content && !memcmp(o1, plain, first_content)) { n_accepted_same++; continue; }
-				h_fail("c05:success-with-different-data:block-api-v0", "lzma_block_buffer_decode with a version-0 lzma_block returned LZMA_OK with %zu bytes different from the original after fault %s at offset %zu in field %s of seed %s", a.tout, fault, at, tag >= 0 ? rb_tag_name(tag) : "-", seed_name); continue; }
+				h_fail(mode ? "c05:success-with-different-data:block-api-v1" : "c05:success-with-different-data:block-api-v0", "lzma_block_buffer_decode with an application-filled lzma_block (mode 0: version 0 copy; mode 1: version 1 as left by lzma_block_header_decode) returned LZMA_OK with %zu bytes different from the original after fault %s at offset %zu in field %s of seed %s", a.tout, fault, at, tag >= 0 ? rb_tag_name(tag) : "-", seed_name); continue; }
 			// reported as success: what did it deliver?
 			int concat = dk_concat(k); size_t exp_len = concat ? plen : first_content; int same = a.tout == exp_len && !memcmp(o1, plain, exp_len);
 			// a cut exactly between Streams / members (or after whole multiples of 4 padding bytes) leaves a valid shorter file
